@@ -85,6 +85,13 @@ func (v *Vue) interpolateToWriter(ctx VueContext, w io.Writer, input string) err
 			val, ok = ctx.stack.Resolve(expr)
 			if !ok {
 				val = nil
+				// Not a variable path: a literal, a unary expression (!a, -n) or
+				// operators written without blanks (a+b) are expressions too.
+				if !helpers.IsVariablePath(expr) {
+					if result, evalErr := v.exprEval.Eval(expr, ctx.stack.EnvMap()); evalErr == nil {
+						val = result
+					}
+				}
 			}
 		}
 
